@@ -106,6 +106,24 @@ def main(argv=None):
     cfg = Config(tier, seed)
     results = run_units(reg, units, cfg, jobs=args.jobs)
 
+    # Verdict stability: solver budgets are wall-clock, so on a loaded machine a feasibility query can time out and
+    # send the executor down a path that a calm run prunes; obligations met there may come out refuted or undecided.
+    # A refutation that is real is deterministic, so every unit with a refuted / undecided obligation is re-run once
+    # with five-fold budgets and the re-run's verdicts are the ones reported (proofs are proofs in either run).
+    listed = set(f.get('obligation') for f in load_json(os.path.join(VERIF, 'known_findings.json'), {}).get('findings', [])
+                 if f.get('property') == pid)
+    shaky = sorted(set(r['unit'] for r in results
+                       if r['crash'] or any(o['status'] != PROVED and o['name'] not in listed for o in r['obligations'])))
+    if shaky and not os.environ.get('PYVC_NO_RERUN'):
+        calm = Config(tier, seed)
+        calm.branch_timeout_ms *= 5
+        calm.quant_branch_timeout_ms *= 5
+        calm.prove_timeout_ms *= 5
+        again = run_units(reg, {k: units[k] for k in shaky}, calm, jobs=args.jobs)
+        by_unit = {r['unit']: r for r in again}
+        results = [by_unit.get(r['unit'], r) for r in results]
+        print('re-ran %d unit(s) with larger solver budgets to confirm their verdicts: %s' % (len(shaky), ', '.join(shaky)[:300]))
+
     obligations = {}
     incomplete = []
     crashes = []
